@@ -11,9 +11,27 @@ def cq_path(p):
     return cq_list([cq_bytes(n) for n in p])
 
 
+def cq_tv(t):
+    """Python value (from tomllib / generators) -> Toml.tv term, table keys sorted (canonical form)"""
+    if isinstance(t, bool):
+        return f"(TBool {'true' if t else 'false'})"
+    if isinstance(t, int):
+        return f"(TInt ({t})%Z)"
+    if isinstance(t, str):
+        return f"(TStr {cq_bytes(t.encode('utf-8'))})"
+    if isinstance(t, (list, tuple)):
+        return "(TArr %s)" % cq_list([cq_tv(x) for x in t])
+    if isinstance(t, dict):
+        items = sorted(((k.encode("utf-8"), v) for k, v in t.items()), key=lambda kv: kv[0])
+        return "(TTbl %s)" % cq_list(["(%s, %s)" % (cq_bytes(k), cq_tv(v)) for k, v in items])
+    raise ValueError(f"unsupported TOML value {t!r}")
+
+
 def cq_node(n):
     if n["k"] == "f":
-        return f"(File {n['m']} {cq_bytes(n['c'])})"
+        if "doc" in n:
+            return f"(File {n['m']} (Doc {cq_tv(n['doc'])}))"
+        return f"(File {n['m']} (Raw {cq_bytes(n['c'])}))"
     if n["k"] == "d":
         return f"(Dir {n['m']})"
     return f"(Link {cq_bytes(n['t'])})"
